@@ -1,12 +1,16 @@
 #!/bin/bash
-# run every pending/kept seeded change against every registered check; one line per (mutant, property)
+# Apply every staged seeded change to /repo, run the quick checks, undo it. One block per change in the log.
+# Fast checks run for every change; the slow (process-level) checks run for the property the change was written for.
 cd /verif
 out=${1:-/verif/seeded_pending/detect.log}
 : > $out
-props=$(python3 -c "import json; print(' '.join(c['property_id'] for c in json.load(open('/verif/MANIFEST.json'))['checks']))")
-for d in $(ls -d seeded_pending/C*/[0-9] seeded/C*/[0-9] 2>/dev/null); do
+FAST="C02 C03 C04 C05 C06 C07 C08 C09 C11 C12 C13 C14 C15 C20"
+for d in $(ls -d seeded_pending/C*/[0-9] 2>/dev/null); do
   patch=$d/patch.diff; [ -f $d/patch.ported.diff ] && patch=$d/patch.ported.diff
-  echo "=== $d" >> $out
+  own=$(echo $d | sed 's#.*/\(C[0-9][0-9]\)b\?/[0-9]*$#\1#')
+  props="$FAST"
+  case "$own" in C01|C10|C16|C17|C18|C19) props="$own $FAST";; esac
+  echo "=== $d own=$own" >> $out
   python3 checklib/run_mutant.py $patch $props >> $out 2>&1
 done
 echo DONE >> $out
